@@ -157,6 +157,19 @@ impl<'a> UserCtx<'a> {
     }
 
     fn step(&mut self) -> bool {
+        // most of the interesting behaviour needs a session: without one, usually get one first
+        if self.m.identity.is_none() && self.rng.chance(2, 3) {
+            let has_pw_account = self.m.accounts.values().any(|p| p.is_some());
+            return if !has_pw_account {
+                if self.rng.chance(1, 3) {
+                    self.op_add()
+                } else {
+                    self.op_register()
+                }
+            } else {
+                self.op_login()
+            };
+        }
         let choice = self.rng.below(100);
         match choice {
             0..=7 => self.op_register(),
